@@ -15,7 +15,8 @@ RULE = (
     "source trees (cb/src, cb/include, cb/src/inc) with a build directory inside the root (cb/build, holding a generated "
     "header) and one outside (outbuild); databases whose entries spell `directory` as absent / absolute / relative to the "
     "root / with ./ and .. segments, `file` as absolute or relative to that directory (with redundant segments), and -I "
-    "values as absolute or relative to the directory (incl. `-I.`), mixed with entries for missing files, object files, "
+    "values as absolute or relative to the directory (incl. `-I.`, and -I values that resolve to the entry file's own directory, "
+    "whose headers api.h / cfg.h are then reached by `#include <...>` and compete by position with the other -I values), mixed with entries for missing files, object files, "
     "link commands, non-source files, files that exist relative to the root but not relative to the entry's directory, `command: \"\"` and `arguments: []`; a generated source file in the outside build directory may be an entry too. Oracle: an independent path model (directory "
     "relative to the root unless absolute; file and -I relative to the directory) gives entry['file'] and "
     "entry['include_paths']; the reference preprocessor model on the canonical paths gives the per-line attribution; "
@@ -33,7 +34,12 @@ HDRS = {"cb/include/h.h": "cb/include", "cb/src/inc/k.h": "cb/src/inc", "cb/buil
         # a per-build-directory generated header: same name, different content, found through `-I.`
         "cb/build/cfg.h": "cb/build", "outbuild/cfg.h": "outbuild", "cb/include/cfg.h": "cb/include",
         # same names directly in the analysis root: must only be found when the root is given with -I
-        "cb/cfg.h": "cb", "cb/h.h": "cb"}
+        "cb/cfg.h": "cb", "cb/h.h": "cb",
+        # headers that live next to the sources: `-I../src` from a build directory (or `-I.` from the source
+        # directory) names the entry file's OWN directory, which is a search directory like any other -
+        # `#include <api.h>` has no implicit including-file directory and needs it; cb/src/cfg.h additionally
+        # makes the POSITION of the own directory among the -I values matter
+        "cb/src/api.h": "cb/src", "cb/lib/api.h": "cb/lib", "outbuild/api.h": "outbuild", "cb/src/cfg.h": "cb/src"}
 DIRECTORIES = ["cb", "cb/build", "outbuild", "cb/src"]
 
 
@@ -71,12 +77,25 @@ def case_strategy():
         plats = {}
         entries = {}
         all_dirsets = []
+        # constructed scenario "own directory": every command names the directory of its own source file among
+        # its -I values (at a drawn position), that directory holds api.h, and the sources include <api.h>
+        own_dir = draw(st.integers(0, 3)) == 0
+        if own_dir:
+            for s in srcs:
+                h = os.path.dirname(s) + "/api.h"
+                if h not in present:
+                    present.add(h)
+                    body = draw(gen_pp.item_lists(1, gen_pp.NAMES, max_items=3, raw=False))
+                    tree[h] = {"items": [["code", 1]] + body, "style": draw(gen_pp.styles())}
         for pi in range(draw(st.integers(1, 2))):
             cmds = []
             for _ in range(draw(st.integers(1, 3))):
                 idirs = draw(st.lists(st.sampled_from(sorted(set(HDRS.values()))), max_size=3, unique=True))
+                f = draw(st.sampled_from(srcs))
+                if own_dir and os.path.dirname(f) not in idirs:
+                    idirs.insert(draw(st.integers(0, len(idirs))), os.path.dirname(f))
                 all_dirsets.append(set(idirs))
-                cmds.append({"file": draw(st.sampled_from(srcs)), "defines": draw(gen_pp.define_sets()), "dirs": [["I", d] for d in idirs], "forced": []})
+                cmds.append({"file": f, "defines": draw(gen_pp.define_sets()), "dirs": [["I", d] for d in idirs], "forced": []})
             plats[f"p{pi}"] = cmds
         # a name may be included in angle form when every command finds it in one of its -I directories
         angle_ok = {os.path.basename(h) for h in present}
@@ -92,6 +111,9 @@ def case_strategy():
             items = draw(gen_pp.item_lists(2, gen_pp.NAMES, extra=inc, max_items=5, raw=False))
             if inc is not None and not any(i[0] == "include" for i in items):
                 items = draw(inc) + items
+            if own_dir:
+                # the own-directory header in angle form (plain or computed); every command lists a directory with api.h
+                items = draw(gen_pp.include_items([], ["api.h"])) + items
             tree[s] = {"items": items or [["code", 1]], "style": draw(gen_pp.styles())}
         tree["cb/src/never.c"] = {"items": [["code", 2]], "style": [0]}
         # how each entry is spelled
@@ -297,8 +319,29 @@ def check_case(case, res: Result, confirm="on-failure"):
         relinc = any("rel" in sp["inc_forms"] and sp["directory"] != "cb" and sp["dir_form"] != "absent" for sp in ents)
         dots = any(sp["dir_form"] == "rel-dots" or sp["file_style"] == 2 or 2 in sp["inc_styles"] for sp in ents)
         nt = (reldir or relinc or dots) and bool(bad_names)
-        res.case(key=[texts, case["platforms"], case["entries"], case["bad"]], nontrivial=nt, sample={"entries": case["entries"], "bad": case["bad"], "platforms": case["platforms"]} if nt else None, labels=[f"rel-directory={int(reldir)}", f"rel-include={int(relinc)}", f"bad={min(len(bad_names),4)}"])
+        # own-directory shape: a command lists the directory of its own source file with -I, the source has an
+        # angle-form include, and the model says a header of that directory is used by that command
+        ownang = 0
+        for pname, cmds in case["platforms"].items():
+            for i, cmd in enumerate(cmds):
+                od = os.path.dirname(cmd["file"])
+                if od in [d for _, d in cmd["dirs"]] and _has_angle(case["tree"][cmd["file"]]["items"]):
+                    oda = os.path.realpath(os.path.join(top, od))
+                    if any(os.path.dirname(ap) == oda and ap != os.path.realpath(os.path.join(top, cmd["file"])) and lines for ap, lines in per_cmd[(pname, i)].items()):
+                        ownang = 1
+        res.case(key=[texts, case["platforms"], case["entries"], case["bad"]], nontrivial=nt, sample={"entries": case["entries"], "bad": case["bad"], "platforms": case["platforms"]} if nt else None, labels=[f"rel-directory={int(reldir)}", f"rel-include={int(relinc)}", f"bad={min(len(bad_names),4)}", f"own-dir-angle-include={ownang}"])
     return vs
+
+
+def _has_angle(items):
+    """an angle-form include (written out, or computed through a macro defined as <...>) anywhere in the items"""
+    if isinstance(items, (list, tuple)):
+        if len(items) == 3 and items[0] == "include" and items[1] == "angle":
+            return True
+        if len(items) == 3 and items[0] == "define" and isinstance(items[2], str) and items[2].startswith("<"):
+            return True
+        return any(_has_angle(x) for x in items)
+    return False
 
 
 def _gcc_confirms(case, top, texts, per_cmd, gcc_jobs, res):
